@@ -410,6 +410,13 @@ func mergeValues(opts *options, old, v value) (value, Error) {
 // before merging generated(normalized) config with current config
 func normalize(opts *options, from interface{}) (*Config, Error) {
 	vFrom := chaseValue(reflect.ValueOf(from))
+	if k := vFrom.Kind(); (k == reflect.Ptr || k == reflect.Interface) && vFrom.IsNil() {
+		// a nil pointer is nil: an empty configuration, like Merge(nil) and a
+		// nil map
+		cfg := New()
+		cfg.metadata = opts.meta
+		return cfg, nil
+	}
 
 	switch vFrom.Type() {
 	case tConfig:
